@@ -18,6 +18,9 @@ pub const PROP: &str = "C13";
 pub struct Case {
     pub name: String,
     pub files: Files,
+    /// abstract project (generated cases only): lets the check edit a package consistently
+    pub proj: Option<crate::genp::project::Project>,
+    pub gen_index: Option<usize>,
 }
 
 #[derive(Clone, Debug, serde::Serialize, serde::Deserialize)]
@@ -137,7 +140,7 @@ fn nontrivial(layout: &Layout, obs: &Observed) -> bool {
 }
 
 pub fn cases(opts: &Opts) -> Vec<Case> {
-    let mut out: Vec<Case> = ops::corpus().into_iter().map(|c| Case { name: c.name, files: c.files }).collect();
+    let mut out: Vec<Case> = ops::corpus().into_iter().map(|c| Case { name: c.name, files: c.files, proj: None, gen_index: None }).collect();
     let ngen = opts.n(1200, 8000);
     for i in 0..ngen {
         let mut p = Prng::derive(opts.seed, i as u64, "c13-project");
@@ -150,9 +153,47 @@ pub fn cases(opts: &Opts) -> Vec<Case> {
             proj.pkgs[pi].raw = crate::genp::variants::multi_error_text(&mut p);
             name.push_str("+errors");
         }
-        out.push(Case { name, files: proj.render() });
+        let keep = if i % 3 == 2 { None } else { Some(proj.clone()) };
+        out.push(Case { name, files: proj.render(), proj: keep, gen_index: Some(i) });
     }
     out
+}
+
+/// A failing link must fail the same way in every process: build everything, change the
+/// interface of a package with >= 2 dependents, rebuild only that package, link — several
+/// dependents are stale at once, and which one the error names must not depend on hash seeds.
+fn stale_link_message(sb: &Sandbox, proj: &crate::genp::project::Project, cfg: &Config) -> Option<String> {
+    let n = proj.pkgs.len();
+    let leaf = (1..n).find(|d| (0..n).filter(|c| proj.pkgs[*c].imports.contains(d)).count() >= 2)?;
+    let files = proj.render();
+    sb.materialise(&files);
+    let layout = Layout::scan(&files);
+    let order = layout.topo(&mut Prng::new(7))?;
+    let mut ent = Prng::new(mix(&[cfg.entropy, 11]));
+    let mut ord = Prng::new(cfg.order);
+    let sep = ops::separate_build(sb, &layout, &order, &mut ent, &mut ord, false);
+    if !sep.ok {
+        return None;
+    }
+    let mut edited = proj.clone();
+    edited.apply_edit(&crate::genp::project::Edit::AddFn { p: leaf }, 777);
+    for (f, b) in edited.render_pkg(leaf) {
+        sb.write(&f, &b);
+    }
+    let pk = &layout.pkgs[&proj.pkgs[leaf].name];
+    let spec = ProcSpec { entropy: ent.next_u64(), readdir: ent.next_u64(), ..Default::default() };
+    let r = ops::goml(sb, &spec, ops::pkg_args(sb, "build", pk, &["out".to_string()], "out", &mut ord));
+    if r.exit != crate::world::Exit::Ok {
+        return None;
+    }
+    let cores: Vec<String> = order.iter().map(|p| format!("out/{p}.core")).collect();
+    let spec = ProcSpec { entropy: ent.next_u64(), readdir: ent.next_u64(), ..Default::default() };
+    let r = ops::goml(sb, &spec, ops::link_args(sb, &cores, "out/main.go", &mut ord));
+    Some(match r.exit {
+        crate::world::Exit::Ok => "link succeeded".to_string(),
+        crate::world::Exit::Err(m) => sb.normalise(&m),
+        other => other.class().to_string(),
+    })
 }
 
 struct CaseResult {
@@ -233,7 +274,13 @@ fn check_case(sb: &Sandbox, opts: &Opts, idx: usize, case: &Case, runs: usize) -
         None
     };
     let c0 = config(opts.seed, idx as u64, 0);
-    let (base, mut procs, d0) = execute(sb, &case.files, &layout, topo.as_deref(), &c0);
+    let (mut base, mut procs, d0) = execute(sb, &case.files, &layout, topo.as_deref(), &c0);
+    if let Some(pj) = &case.proj {
+        if let Some(m) = stale_link_message(sb, pj, &c0) {
+            base.insert("stale-link:message".into(), m);
+            procs += pj.pkgs.len() as u64 + 3;
+        }
+    }
     let mut fingerprints = Vec::new();
     let mut dir_orders: std::collections::BTreeSet<String> = d0.into_iter().collect();
     let nt = nontrivial(&layout, &base);
@@ -244,7 +291,13 @@ fn check_case(sb: &Sandbox, opts: &Opts, idx: usize, case: &Case, runs: usize) -
     for c in 0..runs {
         // c == 0 repeats the identical decision vector: nondeterminism outside every seam
         let cfg = if c == 0 { c0.clone() } else { config(opts.seed, idx as u64, c as u64) };
-        let (obs, n, d) = execute(sb, &case.files, &layout, topo.as_deref(), &cfg);
+        let (mut obs, n, d) = execute(sb, &case.files, &layout, topo.as_deref(), &cfg);
+        if let Some(pj) = &case.proj {
+            if let Some(m) = stale_link_message(sb, pj, &cfg) {
+                obs.insert("stale-link:message".into(), m);
+                procs += pj.pkgs.len() as u64 + 3;
+            }
+        }
         procs += n;
         digest = sha(format!("{digest}{}", serde_json::to_string(&obs).unwrap()).as_bytes());
         dir_orders.extend(d);
@@ -252,7 +305,7 @@ fn check_case(sb: &Sandbox, opts: &Opts, idx: usize, case: &Case, runs: usize) -
         if let Some(field) = first_difference(&base, &obs) {
             let same_vector = c == 0;
             // minimise
-            let (cfg_b, files) = if same_vector {
+            let (cfg_b, files) = if same_vector || field == "stale-link:message" {
                 (cfg.clone(), case.files.clone())
             } else {
                 let b = minimise_configs(sb, &case.files, &layout, topo.as_deref(), &c0, &cfg, &field);
@@ -285,7 +338,8 @@ fn check_case(sb: &Sandbox, opts: &Opts, idx: usize, case: &Case, runs: usize) -
                 key: json!({"class": "nondeterministic", "field": field_class(&field)}),
                 what,
                 replay: json!({
-                    "kind": "c13",
+                    "kind": if field == "stale-link:message" { "c13-stale-link" } else { "c13" },
+                    "gen_index": case.gen_index,
                     "case": case.name,
                     "field": field,
                     "same_vector": same_vector,
@@ -471,6 +525,16 @@ pub fn replay(file: &Value) -> bool {
     }
     let a: Config = serde_json::from_value(r["config_a"].clone()).expect("config_a");
     let b: Config = serde_json::from_value(r["config_b"].clone()).expect("config_b");
+    if r["kind"] == "c13-stale-link" {
+        let i = r["gen_index"].as_u64().unwrap_or(0);
+        let mut p = Prng::derive(file["seed"].as_u64().unwrap_or(0), i, "c13-project");
+        let cfg = GenCfg::swarm(&mut p);
+        let proj = generate(&mut p, &cfg);
+        let ma = stale_link_message(&sb, &proj, &a);
+        let mb = stale_link_message(&sb, &proj, &b);
+        println!("replayed: link of a workspace with several stale dependents says\n  A: {:?}\n  B: {:?}", ma, mb);
+        return ma != mb;
+    }
     let field = r["field"].as_str().unwrap_or("").to_string();
     let layout = Layout::scan(&files);
     let topo = layout.topo(&mut Prng::new(0));
